@@ -12,3 +12,13 @@ impl Xmap {
     #[verifier::external_body] pub fn insert_mut(&mut self, k: Cell, v: Cell) ensures *final(self) == xmap_insert(*old(self), k, v) { unimplemented!() }
     #[verifier::external_body] pub fn remove_mut(&mut self, k: &Cell) -> (r: bool) ensures *final(self) == xmap_remove(*old(self), *k) { unimplemented!() }
 }
+
+// ASSUMED laws of the rpds map (under a key order that is reflexive): lookup after insert, lookup in the empty map
+#[verifier::external_body]
+proof fn axiom_xmap_get_insert(m: Xmap, k: Cell, v: Cell)
+    ensures xmap_get(xmap_insert(m, k, v), k) == Some(v)
+{}
+#[verifier::external_body]
+proof fn axiom_xmap_get_empty(k: Cell)
+    ensures xmap_get(xmap_empty(), k) is None
+{}
